@@ -790,7 +790,7 @@ def _one_config(args):
             r = agg.setdefault(nm, dict(valid=0, invalid=[], unknown=[], secs=0.0))
             if (r['invalid'] and not nm.startswith('CANARY')) or len(r['unknown']) >= 2 or time.time() - t0 > 400:
                 continue
-            v, model, secs = prove(pc, goal, 15000)
+            v, model, secs = prove(pc, goal, 4000 if nm.startswith('CANARY') else 30000)
             r['secs'] += secs
             if nm.startswith('CANARY'):
                 # vacuity guard: False must NOT follow from the assumptions
